@@ -328,9 +328,40 @@ def process_case(ctx, rng):
             ctx.nontrivial_case(lib_digest(w, " ".join(argv) + expect_fail))
 
 
+FAILING_EXPRS = ["{ assert(1 == 2), 4 }", "chk(6)", "(chk(9) + 1)", "{ assert(lbl > 1000), 2 }", "asm { boom 6 }"]
+EXPR_POSITIONS = ["#res %s", "#align %s", "#addr %s", "#d8 %s", "#d %s`8", "ld %s", "k = %s\n#d8 k", "#assert %s == 4", "#if %s == 4\n{\n#d8 1\n}",
+                  "#bankdef z\n{\n    #addr %s\n    #outp 0\n}", "#bankdef z\n{\n    #addr 0\n    #size %s\n    #outp 0\n}",
+                  "#d8 1\n#res %s\n#d8 2", "k = %s\n#res k", "#d8 incbin(\"data.bin\", %s, 1)", "#labelalign_probe"]
+
+
+def failing_expression_cases(ctx, worker):
+    """An expression whose evaluation *fails by itself* (a failed assert(), directly, through a user function or through
+    an asm block) in every position that takes an expression: the failure travels through the evaluator as a value, so
+    each consumer has to turn it into a diagnostic - exactly one of clean success / loud failure, never a panic."""
+    head = ("#ruledef\n{\n    ld {x} => 0x10 @ x`8\n    boom {n} => { assert(n <= 4), 0x55 }\n}\n"
+            "#fn chk(n) => { assert(n <= 4), n }\n")
+    for pos in EXPR_POSITIONS:
+        if "%s" not in pos:
+            continue
+        for e in FAILING_EXPRS:
+            for passing in (False, True):
+                ex = e.replace("1 == 2", "2 == 2").replace("(6)", "(4)").replace("(9)", "(3)").replace("> 1000", ">= 0").replace("boom 6", "boom 4") if passing else e
+                src = head + pos % ex + "\nlbl:\n"
+                job = lib.asm_job({"main.asm": src, "data.bin": {"h": "0102030405060708"}}, want=["msgs", "printed"])
+                rec = worker.run(job)
+                ctx.evaluated()
+                v = u1_library(ctx, job, rec)
+                if v:
+                    ctx.count("failing-expression:" + v)
+                    if v == "fail" and not passing:
+                        ctx.nontrivial_case(src.encode())
+
+
 def shard(ctx):
     worker = ctx.worker("rel")
     chk = ctx.worker("chk") if ctx.tier == "thorough" else None
+    if ctx.shard == 1 % ctx.nshards:
+        failing_expression_cases(ctx, worker)
     fuzz_until = None
     if ctx.tier == "thorough" and ctx.shard == 0:
         fuzz(ctx)
